@@ -226,8 +226,6 @@ class c_cleaner:
                 if char == "\\":
                     state.append("ESCAPING")
                     obuf.append_nonspace(char)
-                elif char == "/":
-                    state.append("FOUND_SLASH")
                 elif char == "'":
                     state.pop()
                     obuf.append_nonspace(char)
